@@ -571,9 +571,14 @@ func checkAggCase(res *Result, ac *aggCase, U []absSig, idx int, repeats int) {
 				for _, lv2 := range []stack.Similarity{stack.AnyValue, stack.AnyPointer, stack.ExactLines, stack.ExactFlags} {
 					_ = snap.Aggregate(lv2)
 				}
-				if again := projAgg(snap.Aggregate(lvl)); !reflect.DeepEqual(idSets(want), idSets(again)) {
+				again := projAgg(snap.Aggregate(lvl))
+				if !reflect.DeepEqual(idSets(want), idSets(again)) {
 					res.violation(mk("C05", "classes-after-history", route+": after aggregating the same snapshot at the other levels, the buckets at this level are no longer the similarity classes", idSets(want), idSets(again)))
 					res.violation(mk("C14", "mutated", route+": earlier aggregations changed what a later one returns", idSets(want), idSets(again)))
+				} else if !reflect.DeepEqual(first, again) {
+					// same classes, other signatures: what is shown for a bucket no longer describes its members as dumped
+					res.violation(mk("C12", "signature-after-history", route+": after aggregating the same snapshot at the other levels, the signature shown for a bucket differs from the one a fresh snapshot gives", first, again))
+					res.violation(mk("C14", "mutated", route+": earlier aggregations changed what a later one returns", first, again))
 				}
 			}()
 		}
